@@ -73,9 +73,31 @@ package file
 //@   ensures [C06:duplicate-name-refused] pfNamed && old(now(pfStatus).exists) ==> errors.Is(result, ErrDuplicateName) && pfWrites == 0
 //@   ensures [C06:lock-released] pfNamed ==> held(lockOf(pfStatus, "RWMutex")) == 0
 //@   modifies alloc, elems[byte], elems[any], elems[string], ghost.matched, ghost.atEOF, ghost.digestOK, ghost.delivered, ghost.syncHas, ghost.syncVal, ghost.syncVersion, ghost.closedRC, ghost.pushes, ghost.lastPush, ghost.present, nameStatus.exists
-//@ func (*Store).restoreDuplicates
+//@ // restoreDuplicates: a titled successor whose name is still free is restored from the copy the
+//@ // store already holds under the same media type, digest and size (C01: the titled node exists
+//@ // after the manifest arrives)
+//@ func (*Store).Fetch
 //@   trusted
+//@   modifies all, except Store.fallbackStorage, except Store.graph
+//@ func (*Store).restoreDuplicates
+//@   requires [ri] s != nil && s.fallbackStorage != nil
+//@   opt trust-frame
+//@   opt trust-nopanic
+//@   call content.Successors|Successors requires [C01:successors-of-the-pushed-manifest] args.node == desc
+//@   call Fetch requires [C01:duplicate-looked-up-by-its-full-content-key] args.target.MediaType == successor.MediaType && args.target.Digest == successor.Digest && args.target.Size == successor.Size
+//@   call push requires [C01:duplicate-restored-under-its-titled-descriptor] args.expected == successor
+//@   loop 0 invariant [objects] s != nil && s.fallbackStorage != nil
 //@   modifies alloc, elems[byte]
+//@
+//@ ghost local sfCopied bool
+//@ func (*Store).saveFile
+//@   requires [wf] s != nil && fp != nil
+//@   opt trust-nopanic
+//@   entry set sfCopied = false
+//@   call CopyBuffer requires [C05:file-written-through-the-verifying-copy] args.desc == expected && args.src == content
+//@   call CopyBuffer set sfCopied = result == nil
+//@   call Store requires [C05:digest-published-only-after-a-verified-write] sfCopied && args.key == box(expected.Digest)
+//@   ensures [C05:failed-copy-is-reported] !sfCopied ==> err != nil
 //@
 //@ func (*Store).Push
 //@   requires [ri] fileStoreRI(s)
